@@ -755,10 +755,11 @@ func c06r8(p *Program, r *Report) {
 				if e.Kind == ExitPanic {
 					continue
 				}
-				inLoop := false
+				// exits in or after the receiving loop (a labelled break leaves the loop and the goroutine ends after it)
+				inLoop := e.Node == nil
 				if e.Node != nil {
 					for _, l := range loops {
-						if posWithin(l, e.Node.Pos()) {
+						if e.Node.Pos() >= l.Pos() {
 							inLoop = true
 						}
 					}
@@ -852,6 +853,14 @@ func c06r9(p *Program, r *Report) {
 				if p.terminates(info, cc.Body) {
 					if last, ok := cc.Body[len(cc.Body)-1].(*ast.ReturnStmt); ok && last != nil {
 						quitCh = append(quitCh, exprStr(ch))
+					}
+				}
+				// or leaves the loop by its label (the code after the loop ends the goroutine)
+				if len(cc.Body) > 0 {
+					if br, ok := cc.Body[len(cc.Body)-1].(*ast.BranchStmt); ok && br.Tok == token.BREAK && br.Label != nil {
+						if ls, ok := p.Parent(fs).(*ast.LabeledStmt); ok && ls.Label.Name == br.Label.Name {
+							quitCh = append(quitCh, exprStr(ch))
+						}
 					}
 				}
 				return true
